@@ -31,6 +31,8 @@ def seeded():
         res = ', '.join(caught) if caught else 'missed'
         if later:
             res = 'missed at first; ' + later
+        elif m.get('not_caught_reason'):
+            res = m['not_caught_reason']
         rows.append('| %s | %s | %s | %s | %s |' % (name, summ, needs, res, ', '.join(kinds[:3])))
     out = ['**Seeded defects (all pass the existing suite; %d confirmed).**' % len(rows), '',
            '| seeded | change | needs, to manifest | caught by (quick tier) | violation kinds |', '|---|---|---|---|---|'] + rows
